@@ -1,3 +1,5 @@
+CONSTANTS
+  SelfPath = TRUE
 SPECIFICATION TSpec
 POSTCONDITION Consumed
 CHECK_DEADLOCK FALSE
